@@ -25,6 +25,10 @@ import time
 from harness.props import c01, c07, c08, closed_c07, closed_c08
 
 BUDGET_S = 70
+# sidecars that declare definitions (modelled: SidecarV.validateClosedD / Tabular.validateClosedRawD with the environment of
+# each file's merged sidecar).  Off by default until the finding below is registered: C16_DECLARE_DEFS=1 turns it on.
+DECLARE = os.environ.get("C16_DECLARE_DEFS") == "1"
+SIG_NOFILE = "C16-definition-issue-without-file-name"
 EXCLUDED = ['sourcedata', 'derivatives', 'code', 'stimuli', 'phenotype']
 CAT_VALUES = ["go", "stop", "1", "left", "n/a", "zz"]
 VAL_VALUES = ["v1", "3", "w 3", "n/a", "7.5", "NA", "null", "None"]
@@ -105,7 +109,7 @@ def gen_tree(rng, g):
             ents[0] = (ents[0][0], "Z9")
         name = "_".join([f"{k}-{v}" for k, v in ents] + ["events"]) + ".json"
         files.setdefault("/".join(list(d) + [name]),
-                         [1, 2] if rng.random() < 0.03 else closed_c08.gen_doc(rng, g))
+                         [1, 2] if rng.random() < 0.03 else closed_c08.gen_doc(rng, g, declare=DECLARE))
     excl = list(EXCLUDED)
     if rng.random() < 0.45:           # an excluded-name directory at any depth, with faulty content
         base = list(rng.choice(dirs)) + [rng.choice(["derivatives", "code", "stimuli", "mystuff"])]
@@ -142,17 +146,24 @@ WITNESS = [
 
 
 def canon_real(issues):
-    """issues of BidsDataset.validate grouped by file base name, in the models' observables"""
+    """issues of BidsDataset.validate grouped by file base name, in the models' observables; and the issues that carry
+    no file name at all (sidecar observables, whether they belong to the definition family)"""
     out = collections.defaultdict(list)
+    nameless = []
     for i in issues:
-        name = os.path.basename(str(i.get("ec_filename", "")))
+        if not i.get("ec_filename"):
+            family = "definition/" in str(getattr(i.get("ec_HedString"), "_hed_string", i.get("ec_HedString"))).casefold()
+            nameless.append((c08.strip_kind([c08.canon_issue(i)])[0], family,
+                             {k: str(v)[:80] for k, v in i.items() if k not in ("message", "_kw", "source_tag")}))
+            continue
+        name = os.path.basename(str(i["ec_filename"]))
         if name.lower().endswith(".json"):
             out[name].append(c08.strip_kind([c08.canon_issue(i)])[0])
         else:
             col = i.get("ec_column")
             out[name].append([i["code"] + ":" + str(i.get("_kind")), i["severity"],
                               -1 if i.get("ec_row") is None else i.get("ec_row"), "" if col is None else str(col)])
-    return {k: sorted(v, key=c08.obs_key) for k, v in out.items()}
+    return {k: sorted(v, key=c08.obs_key) for k, v in out.items()}, nameless
 
 
 def canon_model_file(f, cfw):
@@ -197,7 +208,7 @@ def run_closed(ctx, trees=None):
                         header, rows = parse_tsv(c)
                         tables.append([p.split("/"), header, rows])
                 texts.append(json.dumps(t["files"], ensure_ascii=False))
-                reqs.append({"dir": d, "excluded": t["excl"], "types": ["events"], "cfw": t["cfw"], "tables": tables,
+                reqs.append({"dir": d, "excluded": t["excl"], "types": ["events"], "cfw": t["cfw"], "tables": tables, "defs_modelled": DECLARE,
                              "maskByRow": variant["maskByRow"], "guardDelay": variant["guardDelay"]})
             chars = sorted({c for x in texts for c in x if ord(c) > 127})
             env = dict(v.payload(chars), **c01.detect_variant(), ns="")
@@ -237,7 +248,7 @@ def check_one(ctx, t, root, m, schema, BidsDataset):
     if "error" in m:
         ctx.disagree("validateDatasetClosed raises the HedFileError code", case, m["error"], None)
         return
-    impl = canon_real(raw)
+    impl, nameless = canon_real(raw)
     by_name = collections.defaultdict(list)
     for f in m["files"]:
         by_name[os.path.basename(f["path"])].append(f)
@@ -248,6 +259,32 @@ def check_one(ctx, t, root, m, schema, BidsDataset):
     for name in impl:
         if name not in names_model:
             ctx.violation("closed:issue-labelled-with-a-non-participating-file", case, {"file": name, "issues": impl[name][:4]})
+    # an issue without any file name: the definition issues of a sidecar are appended by SidecarValidator.validate
+    # without the FILE_NAME context (known family, classified); to compare the rest, give each such issue to a
+    # participating sidecar whose model answer lists it
+    if nameless:
+        fam = [x for x in nameless if x[1]]
+        other = [x for x in nameless if not x[1]]
+        if fam:
+            ctx.count("closed:definition-issue-without-file-name", len(fam))
+            ctx.violation("every-issue-of-a-participating-sidecar-carries-its-file-name", case,
+                          {"issues_without_ec_filename": [x[2] for x in fam][:4]}, signature=SIG_NOFILE)
+        if other:
+            ctx.violation("closed:issue-without-file-name", case, {"issues": [x[2] for x in other][:4]})
+        impl = {k: list(v) for k, v in impl.items()}
+        for x, _, rawi in nameless:
+            for f in m["files"]:
+                if f["kind"] != "sidecar" or "issues" not in f:
+                    continue
+                nm = os.path.basename(f["path"])
+                want = canon_model_file(f, t["cfw"]).count(x)
+                if want > impl.get(nm, []).count(x):
+                    impl.setdefault(nm, []).append(x)
+                    break
+            else:
+                if not any("unmodelled" in f for f in m["files"]):
+                    ctx.disagree("an issue without file name belongs to a participating sidecar's closed result", case, None, rawi)
+        impl = {k: sorted(v, key=c08.obs_key) for k, v in impl.items()}
     skipped = False
     for name, fs in by_name.items():
         ctx.count("closed:objects", len(fs))
@@ -290,6 +327,8 @@ def check_one(ctx, t, root, m, schema, BidsDataset):
     kinds = [k for _, k, _ in m["all"]]
     if kinds != sorted(kinds, key=lambda k: k != "sidecar"):
         ctx.disagree("sidecar issues come first", case, kinds, None)
+    if any("definition/" in json.dumps(c).casefold() for c in t["files"].values() if not isinstance(c, str)):
+        ctx.count("closed:trees-with-declared-definitions")
     if len(m["all"]) != len(raw):
         ctx.disagree("validateDatasetClosed: number of issues", case, len(m["all"]), len(raw))
     ctx.count("closed:issues-empty" if not raw else "closed:issues-nonempty")
